@@ -1499,6 +1499,7 @@ func (c *Conn) ReadFrom(p []byte) (n int, addr net.Addr, err error) {
 			switch actualTyp {
 			case recordTypeAlert:
 				if len(plaintext) == 2 && alert(plaintext[1]) == alertCloseNotify {
+					c.rawInputBuf = nil
 					return 0, c.remoteAddr, io.EOF
 				}
 			case recordTypeHandshake:
@@ -1509,6 +1510,8 @@ func (c *Conn) ReadFrom(p []byte) (n int, addr net.Addr, err error) {
 
 		addr = c.remoteAddr
 		n = copy(p, plaintext)
+		// 该数据报已被就地解密并消费：清空缓冲区，否则之后的 Read 会把它当作未处理的记录再次解密
+		c.rawInputBuf = nil
 		return n, addr, nil
 	}
 }
